@@ -59,10 +59,27 @@ PROPS["C19"] = {
     "assumptions": ["'first explicit Local match' and 'most specific catch-all, declaration order on ties' as stated in the property and the WithAddressRewriteRules doc comment"],
 }
 
+PROPS["C14"] = {
+    "parts": [part("TestVerifC14", q=8, t=16)],
+    "level": "exploration",
+    "engine": "E6 tcpmon",
+    "technique": "round-trip monitor over a re-chunking net.Conn (seeded stream partitions) + differential check against a reference RFC 4571 deframer on truncated/hostile streams, with an over-read monitor; real loopback TCP for activeTCPConn",
+    "level_text": "Packet lists (lengths 0..65535, boundary-heavy) are framed by the real writeStreamingPacket, the byte stream is re-served under six partition kinds "
+                  "(1-byte, header-split, random small/large, coalesced, all-at-once) and read back with the real readStreamingPacket, tcpPacketConn.ReadFrom and (loopback) "
+                  "activeTCPConn; truncated, garbage and huge-length streams are compared with a reference deframer; every call is panic-guarded; the conn records the "
+                  "largest and out-of-segment read requests.",
+    "level_note": "Sampled packet lists and partitions (not all partitions of all streams). The loopback part depends on kernel TCP; a stalled loopback session is counted inconclusive, never a violation.",
+    "rule": "case = (packet list, partition kind, buffer mode) or (hostile stream, buffer capacity, partition); distinct_nontrivial counts distinct "
+            "(partition kind, buffer mode, list-length bucket, max-length bucket) and hostile (mode, partition, capacity, stream-size bucket) classes",
+    "assumptions": ["a net.Conn returns data and errors in separate Read calls", "after a refused (too large) frame the stream is abandoned, as all users of the framing do"],
+}
+
 ENGINES = [
     {"name": "E7 refmodel", "path": "harness/ice/vfc16.go, vfc17.go, vfc19.go", "serves_properties": ["C16", "C17", "C19"],
      "kind_free_text": "seeded/exhaustive generators + independent reference implementations evaluated in-process on the real functions"},
 ]
+ENGINES.append({"name": "E6 tcpmon", "path": "harness/ice/vfc14.go, vfc15.go", "serves_properties": ["C14", "C15"],
+                "kind_free_text": "framing functions over a re-chunking net.Conn; TCPMuxDefault over real loopback TCP with well-behaved and hostile clients"})
 
 # properties without a check yet (kept current by hand)
 NOT_YET = {}
